@@ -27,6 +27,10 @@ func (valenc listEncoder) Encode(enc *Encoder, v interface{}) {
 }
 
 func (listEncoder) Write(enc *Encoder, v interface{}) {
+	if reflect2.PtrOf(v) == nil {
+		enc.WriteNil()
+		return
+	}
 	enc.SetReference(v)
 	enc.writeList((*list.List)(reflect2.PtrOf(v)))
 }
